@@ -6,6 +6,8 @@
  * compared with the specification only (received = sent).
  *
  * case: <id> <10+variant 0..3 | 14 = command text> <sndbuf> <0> <0> <0> <op>...
+ *       <id> <20+variant 0,1 | 24> <size> ...: memory streams (mpt_stream_memory): the writer encodes into a user
+ *       buffer of <size> bytes, `drain` hands the finished bytes to a reader stream over memory
  *   send HEX   push the message and terminate it (retrying after flush / reader progress)
  *   part HEX   push a piece, no termination;   fin   terminate
  *   wire N     flush the writer (N is ignored; the kernel decides how much is taken)
@@ -43,28 +45,37 @@ static int on_msg(void *arg, const MPT_STRUCT(message) *msg)
 	free(tmp);
 	return 0;
 }
-/* one receive round; returns number of messages delivered (plus one if new bytes were read) */
+/* one receive round, following the event loop protocol of the library (mpt_loop): dispatch only after
+ * mpt_stream_poll reported input, and again only while the dispatcher asks for a retry.
+ * returns number of messages delivered (plus one if bytes were read or buffers changed) */
 static int do_recv(void)
 {
-	int before = nrecv, guard = 0, ret, moved;
+	int before = nrecv, guard = 0, ret, moved, pr;
 	size_t l0 = r._rd.data.len, c0 = r._rd._state.curr, m0 = r._rd.data.max;
-	if (mpt_stream_poll(&r, POLLIN, 0) < -1) { /* nothing to read */ }
-	while (++guard < 100000) {
-		ret = mpt_stream_dispatch(&r, on_msg, 0);
-		if (ret < 0 || !(ret & MPT_EVENTFLAG(Retry))) break;
+	pr = mpt_stream_poll(&r, POLLIN, 0);
+	if (pr > 0 && (pr & POLLIN)) {
+		while (++guard < 100000 && nrecv <= 4000) {
+			ret = mpt_stream_dispatch(&r, on_msg, 0);
+			if (ret < 0 || !(ret & MPT_EVENTFLAG(Retry))) break;
+		}
 	}
 	moved = (l0 != r._rd.data.len) || (c0 != r._rd._state.curr) || (m0 != r._rd.data.max);
 	return (nrecv - before) + moved;
 }
 static void pump(void)
 {
-	int idle = 0, guard = 0;
+	int idle = 0, guard = 0, nomove = 0;
 	while (++guard < 100000 && idle < 3) {
+		size_t d0 = w._wd._state.done;
 		int f = mpt_stream_flush(&w);
 		int got = do_recv();
 		size_t pend = w._wd._state.done;
 		idle = (got || (f >= 0 && pend)) ? 0 : idle + 1;
 		if (f < 0 && !got) idle++;
+		/* finished data that is neither written nor received any more: give up quickly (reported by the caller) */
+		nomove = (got || pend != d0) ? 0 : nomove + 1;
+		if (nomove > 200) break;
+		if (nrecv > 4000) break;      /* a stream that keeps producing messages: certainly not what was sent */
 	}
 }
 static ssize_t push_all(const uint8_t *d, size_t n)
@@ -85,6 +96,58 @@ static ssize_t push_all(const uint8_t *d, size_t n)
 	}
 	return 0;
 }
+/* memory streams: no descriptor, fixed user buffers */
+static void run_memory(int ntok, char **tok, int code)
+{
+	static const MPT_STRUCT(stream) init = MPT_STREAM_INIT;
+	size_t size = vh_int(tok[2]);
+	struct iovec ov, iv;
+	int t = 6;
+	uint8_t *copy = 0;
+	ov.iov_base = malloc(size ? size : 1); ov.iov_len = size;
+	memset(ov.iov_base, 0xee, size);
+	w = init; r = init;
+	if (mpt_stream_memory(&w, 0, &ov) < 0) { vh_tok("?wmem"); return; }
+	w._wd._enc = mpt_message_encoder(code);
+	while (t < ntok) {
+		const char *op = tok[t++];
+		ssize_t rc = 0;
+		nrecv = 0;
+		vh_tok("");
+		if (!strcmp(op, "send") || !strcmp(op, "part")) {
+			size_t n, off = 0; uint8_t *d = vh_unhex(tok[t++], &n);
+			while (off < n && rc >= 0) { rc = mpt_stream_push(&w, n - off, d + off); if (rc > 0) off += rc; else if (!rc) rc = -99; }
+			if (rc >= 0 && op[0] == 's') rc = mpt_stream_push(&w, 0, 0);
+			free(d);
+		}
+		else if (!strcmp(op, "fin")) rc = mpt_stream_push(&w, 0, 0);
+		else if (!strcmp(op, "wire")) { t++; }
+		else if (!strcmp(op, "recv")) { }
+		else if (!strcmp(op, "drain")) {
+			/* hand the finished bytes to a reader over memory and take every message */
+			size_t k = w._wd._state.done;
+			int guard = 0, ret;
+			copy = malloc(k ? k : 1);
+			if (k && mpt_queue_get(&w._wd.data, 0, k, copy) < 0) { vh_add("?get"); break; }
+			mpt_queue_crop(&w._wd.data, 0, k);
+			w._wd._state.done -= k;
+			iv.iov_base = copy; iv.iov_len = k;
+			r = init;
+			if (k && mpt_stream_memory(&r, &iv, 0) < 0) { vh_add("?rmem"); break; }
+			r._rd._dec = mpt_message_decoder(code);
+			r._rd._state.data.msg = -1;
+			while (k && ++guard < 100000) {
+				ret = mpt_stream_dispatch(&r, on_msg, 0);
+				if (ret < 0 || !(ret & MPT_EVENTFLAG(Retry))) break;
+			}
+			free(copy); copy = 0;
+		}
+		else { vh_add("?%s", op); break; }
+		if (!nrecv) vh_add("-");
+		if (rc < 0) vh_add("|fail%zd", rc); else vh_add("|ok");
+	}
+	free(ov.iov_base);
+}
 static void run_case(int ntok, char **tok)
 {
 	static const int codes[] = { MPT_ENUM(EncodingCobs), MPT_ENUM(EncodingCobsInline),
@@ -94,6 +157,7 @@ static void run_case(int ntok, char **tok)
 	static const MPT_STRUCT(stream) init = MPT_STREAM_INIT;
 	int v = vh_int(tok[1]) - 10, sndbuf = vh_int(tok[2]), t = 6, sv[2];
 	MPT_STRUCT(socket) sock;
+	if (v >= 10) { run_memory(ntok, tok, codes[v - 10]); return; }
 	if (v < 0 || v > 4) { vh_tok("?variant"); return; }
 	if (socketpair(AF_UNIX, SOCK_STREAM, 0, sv) < 0) { vh_tok("?socketpair"); return; }
 	fcntl(sv[0], F_SETFL, O_NONBLOCK);
